@@ -11,6 +11,8 @@ the reference copy; the default stop rules equal the reference's inline tests;
 every DE strategy forms its mutated component as its scheme defines, from
 distinct members drawn without replacement, with one of the two canonical
 crossover loops; replacement only by strictly lower energy (C01.c).
+Round 3: Powell's three line searches receive the same (xtol*100, imax)
+settings.
 NOT decided: numerical agreement with scipy (rounding, counts), brent.
 """
 import ast
